@@ -228,8 +228,10 @@ pub fn check_c05(tier: &str) -> i32 {
         let lm = lines_map(res.lines.get(&id).map(|v| v.as_slice()).unwrap_or(&[]));
         // address
         if let Some(loc) = lm.get("location").and_then(|l| l["v"].as_str()) {
-            let norm_url = |u: &str| u.trim_end_matches('/').to_string();
-            if norm_url(loc) != norm_url(&w.address) {
+            // a URL parser adds the path "/" to a bare authority; any other difference is a difference
+            let bare_authority = w.address.splitn(4, '/').count() < 4;
+            let same = loc == w.address || (bare_authority && loc.trim_end_matches('/') == w.address.trim_end_matches('/'));
+            if !same {
                 agg.add(mk("client.address").ctx("aspect", "default-location").exp(&w.address).act(loc));
             }
         }
